@@ -4,7 +4,7 @@
    and unicode.Is(Zs) as arbitrary predicates on runes; s ranges over lexer states whose cursor is
    inside its input (js_wf), in particular every state reachable from js_init d. *)
 From Verif Require Import Common.Base Common.Lx Gen.Tables JsLex.Model JsLex.Lemmas JsLex.Next JsLex.Proofs JsLex.Canon
-  JsLex.Comment JsLex.Regexp JsLex.Relex JsLex.RelexNext.
+  JsLex.Comment JsLex.Regexp JsLex.Relex JsLex.RelexNext JsLex.Exchange JsLex.SeqNext.
 
 (* C01: Next and RegExp never panic (no read outside data ++ [0], templateLevels never sliced empty),
    no loop runs out of fuel, and the cursor stays inside [0, len] — also on the error path. *)
@@ -158,3 +158,22 @@ Theorem regexp_reread :
       lpos (jcur s2) = len pre + len (re_lit body flags) /\ lstart (jcur s2) = lpos (jcur s2).
 Proof. exact regexp_reread_proof. Qed.
 Print Assumptions regexp_reread.
+
+(* C06 token sequences, PARTIAL: proved for the classes punctuators / operators (all 57 spellings),
+   identifiers + keywords + private identifiers (ASCII, Unicode letters, \u escapes, ZWNJ/ZWJ),
+   whitespace (incl. non-ASCII spaces) and line terminators (LF, CR, CRLF, U+2028, U+2029).
+   seq_ok ts: every (type, text) of ts is a token of one of these classes (it lexes on its own to
+   exactly that token: relexes), contains no truncated multi-byte sequence, and is followed — by the
+   next token's first byte, or by the end of input — by a byte that cannot extend it (stop_for: the
+   "separated wherever two adjacent tokens would otherwise merge" condition, in a sufficient form).
+   Then Next returns exactly these types and texts, in order, and ends at the end of the input.
+   MISSING classes (covered by correspondence and the Go oracle only): numeric literals, strings,
+   templates with nesting, comments, regular expressions; and followers that are safe but not in
+   stop_for (e.g. '+' directly followed by '!'). *)
+Theorem jslex_token_sequences_partial :
+  forall (ids idc zs : Z -> bool) (ts : list tokspec), seq_ok ids idc zs ts ->
+    exists s', next_n ids idc zs (length ts) (js_init (texts ts)) =
+                 Ok (map (fun t => (fst t, Some (snd t))) ts, s') /\
+      at_end (jcur s') = true /\ lstart (jcur s') = lpos (jcur s').
+Proof. exact jslex_token_sequences_partial_proof. Qed.
+Print Assumptions jslex_token_sequences_partial.
